@@ -18,3 +18,6 @@ pub enum ConnectionRegistration {
     Worker(RegisterWorker),
     Custom,
 }
+
+#[cfg(feature = "verif")]
+pub mod verif_auth;
